@@ -61,8 +61,8 @@ TOffCols == MCOffCols \\cup {{ {rnd.randrange(2, 16383)}, 0 - {rnd.randrange(2, 
 TOffRows == MCOffRows \\cup {{ {rnd.randrange(2, 1048575)}, 0 - {rnd.randrange(2, 1048575)}, {rnd.randrange(1048577, 5000000)} }}
 TAlphabet == MCAlphabet \\cup {{98, 46}}
 TMaxName == 4
-TBigCols == {{1, 26, 27, 702, 703, 16383, 16384, {bc}}}
-TBigRows == {{1, 2, 1048575, 1048576, {br}}}
+TBigCols == {{1, 26, 27, 702, 703, 16384, {bc}}}
+TBigRows == {{1, 2, 1048576, {br}}}
 T4Modes == {{"pair", "triple"}}
 T4Cols == 1..4
 T4Export == FALSE
@@ -122,6 +122,7 @@ class Driver:
         self.counts = {}
         self.skipped = {}
         self.failed = {}
+        self.want = {}
 
     # -- bookkeeping ---------------------------------------------------------
     def call(self, fn, *a, **k):
@@ -140,7 +141,14 @@ class Driver:
             self.v.violation(f'{kind}: {desc}', dict(case, kind=kind, nth=self.failed[shape]))
 
     def seen(self, kind, key):
+        """key: the case dict (its values name the input), or None"""
         self.counts[kind] = self.counts.get(kind, 0) + 1
+        if isinstance(key, dict):
+            try:
+                key = tuple(key.values())
+                hash(key)
+            except TypeError:
+                key = repr(key)
         if key is None:          # bulk run: counted, not kept as a distinct key
             self.v.evaluations += 1
         else:
@@ -176,22 +184,28 @@ class Driver:
         unit = rect[:2] == rect[2:]
         if unit != isinstance(got, eu.AddressCell):
             return False
+        key = (rect, sheet)
+        if key not in self.want:
+            try:
+                same = self.mk(rect, sheet)
+            except Exception as exc:   # noqa
+                same = exc
+            self.want[key] = (self.a1(rect), self.full(rect, sheet), same)
+        coord, full, same = self.want[key]
         try:
             corners = (got.start.col_idx, got.start.row, got.end.col_idx, got.end.row)
-            return (corners == rect and got.sheet == sheet
-                    and got.coordinate == self.a1(rect)
-                    and got.address == self.full(rect, sheet)
-                    and got == self.mk(rect, sheet))
+            return (corners == rect and got.sheet == sheet and got.coordinate == coord
+                    and got.address == full and got == same)
         except Exception:   # noqa
             return False
 
     def expect_loc(self, kind, got, rect, sheet, case):
-        self.seen(kind, repr(case))
+        self.seen(kind, case)
         if not self.is_loc(got, rect, sheet):
             self.fail(kind, f'expected {self.full(tuple(rect), sheet)!r}, got {got!r}', case)
 
     def expect_eq(self, kind, got, want, case):
-        self.seen(kind, repr(case))
+        self.seen(kind, case)
         if isinstance(got, Exception) or got != want or type(got) is not type(want):
             self.fail(kind, f'expected {want!r}, got {got!r}', case)
 
@@ -316,14 +330,14 @@ class Driver:
         A = self.call(self.mk, rect, sheet)
         case = dict(tuple=rect, sheet=sheet)
         if isinstance(A, Exception):
-            self.seen('print', repr(case))
+            self.seen('print', case)
             self.fail('print', f'cannot construct: {A!r}', case)
             return
         for form in ('address', 'quoted_address', 'abs_address'):
             text = self.call(getattr, A, form)
             case = dict(tuple=rect, sheet=sheet, form=form, text=str(text))
             if isinstance(text, Exception):
-                self.seen('print', repr(case))
+                self.seen('print', case)
                 self.fail('print', f'{form} raises {text!r}', case)
                 continue
             self.expect_loc('print.parse', self.call(eu.AddressRange.create, text), rect, sheet, case)
@@ -341,7 +355,7 @@ class Driver:
             case = dict(formula='=' + text, on_sheet=sheet)
             got = self.call(lambda: tuple(ExcelFormula(
                 '=' + text, cell=Anchor(2, 2, sheet)).needed_addresses))
-            self.seen('formula.needed', repr(case))
+            self.seen('formula.needed', case)
             if isinstance(got, Exception) or len(got) != 1 or not self.is_loc(
                     got[0], rect, want.sheet):
                 self.fail('formula.needed', f'expected ({want!r},), got {got!r}', case)
@@ -366,7 +380,7 @@ class Driver:
         col = self.LET[MAX_COL - 1]
         for i, (text, want, kind, case) in enumerate(formulas):
             case = dict(case, formula=text)
-            self.seen(kind, repr(case))
+            self.seen(kind, case)
             if isinstance(model, Exception):
                 got = model
             else:
@@ -476,7 +490,7 @@ class Driver:
     def op_expect(self, kind, got, want_rect, ok, sheet, case, keep=True):
         """result of & or **: an address, #NULL! (want_rect == []) or #VALUE!"""
         eu = self.eu
-        self.seen(kind, repr(case) if keep else None)
+        self.seen(kind, case if keep else None)
         if not ok:
             good = isinstance(got, str) and got == eu.VALUE_ERROR
             want = eu.VALUE_ERROR
@@ -499,11 +513,18 @@ class Driver:
             if key not in objs:
                 objs[key] = self.mk(rect, sheet)
             return objs[key]
+        # the sheet rule is exported once (with the unit pairs a = b)
+        combos = next(vec['combos'] for vec in vecs if vec['combos'])
+        if len(combos) != 9:
+            raise tlc.MachineryFailure(f'sheet combinations: {len(combos)}')
+        if not dense:      # the sparse grid is large: four of the nine there
+            combos = [x for x in combos if (T(x['sa']), T(x['sb'])) in (
+                ('', ''), ('S', 'S'), ('S', ''), ('S', 'T'))]
         for n, vec in enumerate(vecs):
             a, b, inter, union = vec['a'], vec['b'], vec['inter'], vec['union']
             if n < 2:
                 self.v.sample(dict(m=vec['m'], a=a, b=b, inter=inter or '#NULL!', union=union))
-            for combo in vec['combos']:
+            for combo in combos:
                 sa, sb, ok, sh = T(combo['sa']), T(combo['sb']), combo['ok'], T(combo['sh'])
                 A, B = obj(a, sa), obj(b, sb)
                 case = dict(a=self.full(tuple(a), sa), b=self.full(tuple(b), sb))
@@ -598,19 +619,28 @@ class Driver:
             return objs[key]
         picks = []
         count = 0
+        inner = {}      # the inner operation of a triple is a pair: computed once
+
+        def pair(op, P, Q):
+            key = (op, P, Q)
+            if key not in inner:
+                inner[key] = self.call((lambda: P & Q) if op == '&' else (lambda: P ** Q))
+            if isinstance(inner[key], Exception):
+                raise inner[key]
+            return inner[key]
         for a, b, c, inter, union in triples:
             count += 1
             sheets = self.rnd.choice(SHEET3)
             A, B, X = obj(a, sheets[0]), obj(b, sheets[1]), obj(c, sheets[2])
             sh = 'S' if 'S' in sheets else ''
             case = dict(a=A.address, b=B.address, c=X.address)
-            self.op_expect('inter3', self.call(lambda: (A & B) & X), inter, True, sh,
+            self.op_expect('inter3', self.call(lambda: pair('&', A, B) & X), inter, True, sh,
                            dict(case, op='(a&b)&c'), keep)
-            self.op_expect('inter3', self.call(lambda: A & (B & X)), inter, True, sh,
+            self.op_expect('inter3', self.call(lambda: A & pair('&', B, X)), inter, True, sh,
                            dict(case, op='a&(b&c)'), keep)
-            self.op_expect('union3', self.call(lambda: (A ** B) ** X), union, True, sh,
+            self.op_expect('union3', self.call(lambda: pair('**', A, B) ** X), union, True, sh,
                            dict(case, op='(a**b)**c'), keep)
-            self.op_expect('union3', self.call(lambda: A ** (B ** X)), union, True, sh,
+            self.op_expect('union3', self.call(lambda: A ** pair('**', B, X)), union, True, sh,
                            dict(case, op='a**(b**c)'), keep)
             if self.rnd.random() < budget:
                 picks.append((a, b, c, inter, union))
